@@ -340,8 +340,8 @@ func (em *emitter) emitAssignmentOperation(addr address, rh ast.Expression) {
 		ret := em.fb.newRegister(reflect.Complex128)
 		c1 := em.fb.newRegister(reflect.Complex128)
 		c2 := em.fb.newRegister(reflect.Complex128)
-		em.changeRegister(false, b, c1, typ, typ)
-		em.changeRegister(false, c, c2, typ, typ)
+		em.changeRegister(false, c, c1, typ, typ)
+		em.changeRegister(false, b, c2, typ, typ)
 		index := em.fb.complexOperationIndex(operatorFromAssignmentType(addr.operator), false)
 		em.fb.emitCallNative(index, 0, stackShift, addr.pos)
 		em.changeRegister(false, ret, c, typ, typ)
